@@ -1,3 +1,4 @@
+import Sparrow.Proofs.Relabel
 import Sparrow.Proofs.Tiling
 /-
   C08 — Patch subdivision is an exact congruent tiling of each wall.
@@ -80,3 +81,15 @@ theorem wall_attribution (counts : List Nat) (w k : Nat) (hw : w < counts.length
   Sparrow.wallOfPatch_block counts w k hw hlo hhi
 
 end Sparrow.Props.C08
+
+namespace Sparrow.Props.C08.Relabel
+open Sparrow
+
+/-- … and the receiver curve of the code (receiver data renumbered alike) is unchanged. -/
+theorem monoCurveCode_relabel (sc : ExScene ℝ) (hwf : sc.WF) (σ τ : Nat → Nat) (h : IsRelabel sc.P σ τ)
+    (K : Nat) (g w : Nat → ℝ) (binR : Nat → Nat) (t : Nat) :
+    monoCurveCode (sc.relabel σ τ) K (fun j => g (τ j)) (fun j => w (τ j)) (fun j => binR (τ j)) t =
+      monoCurveCode sc K g w binR t :=
+  Sparrow.monoCurveCode_relabel sc hwf σ τ h K g w binR t
+
+end Sparrow.Props.C08.Relabel
